@@ -23,8 +23,9 @@ MODEL_OPS = {"pileup", "pileup_events", "mask", "merge", "sort", "count_overlap"
 ASSUMPTIONS = [
     "intervals are 0 <= start <= stop <= size (merge, count_overlap, intersect, Forbes: start < stop); merge input is sorted by start (the code asserts it)",
     "count_overlap and intersect are compared only when each operand is internally non-overlapping (touching allowed): the "
-    "'independently sorted starts and stops' formula is not the per-base value for a nested/duplicated operand (Lean example "
-    "C08.countOverlap_nested_not_perbase); the functions carry no docstring, the repository's tests use disjoint operands",
+    "'independently sorted starts and stops' formula counts depth-1 (theorem countOverlap_depth), which is the per-base value "
+    "exactly under that precondition and not for a nested/duplicated operand (C08.countOverlap_nested_not_perbase); the "
+    "functions carry no docstring, the repository's tests use disjoint operands",
     "clip is compared for intervals that meet the contig (start <= stop, start <= size, stop >= 0); extend_to_size for intervals "
     "inside the contig, fragment length >= 0, strands + and -",
     "Jaccard needs a non-empty union, Forbes two non-empty sets (otherwise 0/0)",
@@ -43,15 +44,17 @@ MANIFEST = {
             "bridges only gaps <= d, separates outputs by > d and returns them in order; get_boolean_mask builds a well-formed "
             "run-length array whose xor-accumulate expansion is cov>0 at every base (toArray_dense + from_intervals + merge); the "
             "in-repo event pileup (bedgraph.get_pileup: sort endpoints, +-1, cumsum, drop duplicates) is well formed and equals the "
-            "per-base count; the contingency table and unique_intersect are the per-base values; sort_intervals is a permutation "
+            "per-base count; count_overlap = sum over bases of (depth-1) and intersect covers every base (depth-1) times for ANY operands "
+            "(key identity cov_pairing on independently sorted starts/stops), hence equal to the per-base values when each operand is "
+            "internally non-overlapping; the contingency table and unique_intersect are the per-base values; sort_intervals is a permutation "
             "ordered by (chromosome, start, stop) (refutation of the shipped lexsort rule kept); clip and extend_to_size kernels, "
             "re-traced from the source on every run into Gen/C08.lean, stay inside the contig and have the stated lengths (omega). "
             "Correspondence: implementation vs Lean model vs Lean spec vs Python per-base oracle on every multiset of <= 3 "
             "intervals on contigs <= 6, pairs of such sets, every merge distance.",
-    "note": "count_overlap / intersect formulas are modelled and corresponded (not proved) on internally non-overlapping operands "
-            "(domain restriction stated in assumptions, with a Lean counter-example for a nested operand); the exported get_pileup's "
-            "counting engine is npstructures (specified); Jaccard/Forbes float division compared bitwise. Known finding: "
-            "jaccard() with an entirely empty operand raises ValueError in streams.groupby.",
+    "note": "count_overlap / intersect are compared with the per-base value only on internally non-overlapping operands (precondition "
+            "of countOverlap_perbase / intersect_perbase; Lean counter-example for a nested operand); the exported get_pileup's "
+            "counting engine is npstructures (specified; its in-repo wrapper getPileup and the per-row chromosome lookup of "
+            "Geometry.clip/extend_to_size are in the model); Jaccard/Forbes float division compared bitwise.",
     "technique": "Lean 4 proof over an executable model + kernels traced from source; differential correspondence with the implementation",
     "design": "§6 C08",
 }
